@@ -151,16 +151,32 @@ def family(ctx):
         ([4], [4], [-1], [-INT64_MAX], [0], [-1], False),                  # reversal: same shape, different tensor
         ([2, 3], [2, 3], [0, -1], [5, -INT64_MAX], [0, 1], [1, -1], False),  # one step 1, one step -1
     ]
+    # unknown (unnamed) dynamic dims: two unknown dims are not known to be equal, so a slice that really drops elements along
+    # such an axis must stay (ir.Shape.__eq__ holds for two unnamed dims; _ir_utils.same_shape must be what decides).
+    # 8th field: the declared output shape when it is not derived from the data declaration.
+    for sh, decl, s, e, ax, out in [
+        ([3, 4], [None, 4], [1], [INT64_MAX], [0], [None, 4]),
+        ([3, 4], [None, 4], [0], [2], [0], [None, 4]),
+        ([3, 4], [3, None], [1], [INT64_MAX], [1], [3, None]),
+        ([3, 4], [None, None], [1, 0], [INT64_MAX, INT64_MAX], [0, 1], [None, None]),
+        ([3, 4], ["N", 4], [1], [INT64_MAX], [0], [None, 4]),          # named in, unnamed out
+        ([3, 4], [None, 4], [1], [INT64_MAX], [0], ["M", 4]),          # unnamed in, named out
+        ([3, 4], ["N", 4], [1], [INT64_MAX], [0], ["M", 4]),           # two different names
+        ([2, 3, 4], [2, None, 4], [-2], [INT64_MAX], [1], [2, None, 4]),
+    ]:
+        insts2.append((sh, decl, s, e, ax, [1] * len(ax), False, out))
     fired2 = 0
-    for i, (sh, decl, s, e, ax, st, expect) in enumerate(insts2):
+    for i, inst in enumerate(insts2):
+        sh, decl, s, e, ax, st, expect = inst[:7]
         dtype = ("float32", "int64")[i % 2]
         x = U.int_data(sh, dtype, 0)
         want = _np_slice(x, s, e, [a % len(sh) for a in ax], st)
-        out_decl = [w if isinstance(dd, int) else dd for w, dd in zip(want.shape, decl)]
+        out_decl = inst[7] if len(inst) > 7 else [w if isinstance(dd, int) else dd for w, dd in zip(want.shape, decl)]
         host = _slice_host(sh, decl, s, e, ax, st, dtype, out_decl)
         new = U.apply_rule(host, [mod.collapse_slice2_rule])
         fired = "Slice" not in U.ops(new)
-        ctx.case(("collapse2", len(sh), len(ax), tuple(st), fired, any(not isinstance(d, int) for d in decl)))
+        ctx.case(("collapse2", len(sh), len(ax), tuple(st), fired, tuple("int" if isinstance(d, int) else ("unnamed" if d is None else "named") for d in decl),
+                  tuple("int" if isinstance(d, int) else ("unnamed" if d is None else "named") for d in out_decl)))
         same = list(want.shape) == list(sh) and all(v == 1 for v in st)
         if fired and not same:
             pass   # judged by the oracle
@@ -169,7 +185,7 @@ def family(ctx):
         if fired:
             fired2 += 1
             feeds = [{"x": U.int_data(sh, dtype, k)} for k in range(3)]
-            if "N" in decl:
+            if "N" in decl and decl[0] == "N" and len(inst) == 7:
                 feeds.append({"x": U.int_data([0] + sh[1:], dtype, 0)})
             good, _ = U.oracle(ctx, "C05:collapse-slice2:differs", f"Slice(x{decl}, {s}, {e}, {ax}, {st})", host, new, feeds,
                                {"family": "slices", "rule": "collapse_slice2_rule", "x_shape": decl, "starts": s, "ends": e, "axes": ax, "steps": st})
